@@ -9,8 +9,8 @@ import argparse, json, os, re, shutil, subprocess, sys, time
 ENV = dict(os.environ, GOFLAGS="-mod=mod", GOPROXY="off", GOSUMDB="off", GOTOOLCHAIN="local")
 
 def run(cmd, cwd=None, timeout=1800):
-    r = subprocess.run(cmd, cwd=cwd, env=ENV, stdout=subprocess.PIPE, stderr=subprocess.STDOUT, text=True, timeout=timeout, shell=isinstance(cmd, str))
-    return r.returncode, r.stdout
+    r = subprocess.run(cmd, cwd=cwd, env=ENV, stdout=subprocess.PIPE, stderr=subprocess.STDOUT, timeout=timeout, shell=isinstance(cmd, str))
+    return r.returncode, r.stdout.decode("utf-8", errors="replace")
 
 def main():
     ap = argparse.ArgumentParser()
